@@ -101,8 +101,10 @@ type RNode struct {
 	Buf      *RBuf // the buffer the value's range refers to (a root: its own buffer)
 	Synth    bool
 	Gap      bool
-	Fmt      bool // root of a format decode
-	GapFill  bool // ... that was gap filled
+	Fmt      bool  // root of a format decode
+	GapFill  bool  // ... that was gap filled
+	DecStart int64 // format roots: the bit range handed to the decode (in Buf's coordinates)
+	DecLen   int64
 	Err      bool
 	Kids     []*RNode
 }
@@ -448,7 +450,7 @@ func (r *refRun) decodeGroup(fmts [][]*Op, arr bool, name string, buf *RBuf, sta
 		if arr {
 			k = 'a'
 		}
-		root := &RNode{Name: name, Kind: k, Start: start, Buf: buf, Fmt: true, GapFill: fillGaps, IsRoot: isRoot}
+		root := &RNode{Name: name, Kind: k, Start: start, Buf: buf, Fmt: true, GapFill: fillGaps, IsRoot: isRoot, DecStart: start, DecLen: n}
 		cx := &rctx{node: root, buf: buf, pos: start, base: start, limit: start + n}
 		ok := func() (ok bool) {
 			defer func() {
@@ -535,6 +537,11 @@ func (r *refRun) fillGaps(root *RNode, start, n int64) {
 			gaps = append(gaps, [2]int64{i, j - i})
 			i = j
 		}
+	}
+	if start != 0 && len(gaps) > 0 && gaps[0][0] == 0 && gaps[0][1] > 0 && any {
+		// a gap filled decode that does not start at bit 0 of its buffer and
+		// leaves its first bits undecoded
+		r.label("nested-gapfill-at-offset-with-leading-gap")
 	}
 	for i, g := range gaps {
 		r.label("gap")
